@@ -34,7 +34,16 @@ pub fn analyze_trait(item_trait: syn::ItemTrait) -> syn::Result<OutTrait> {
 
                 fns.push(TraitFn {
                     deps: FnDeps::NoDeps,
-                    attrs: method.attrs,
+                    // (the inner attributes of a default body are listed with the method's own:
+                    // they mean the same written in front of the method, which is where they are emitted)
+                    attrs: method
+                        .attrs
+                        .into_iter()
+                        .map(|mut attr| {
+                            attr.style = syn::AttrStyle::Outer;
+                            attr
+                        })
+                        .collect(),
                     entrait_sig,
                     originally_async,
                     default_body: method.default,
